@@ -135,6 +135,139 @@ def constructs(fn: ast.FunctionDef):
     return out
 
 
+def may_be_tensor(e, fn, ci, depth=0) -> bool:
+    """the value can be a tensor that carries a graph: reads `.tensor`, a property returning one, an attribute set from a tensor / parameter argument"""
+    if depth > 5 or e is None:
+        return False
+    if isinstance(e, ast.Constant):
+        return False
+    if isinstance(e, ast.Attribute):
+        if e.attr == 'tensor':
+            return True
+        if e.attr in ('shape', 'dtype', 'device', 'ndim'):
+            return False
+        a = self_attr(e)
+        if a and ci is not None:
+            g = ci.resolve(a, 'getter')
+            if g is not None:
+                return any(may_be_tensor(r.value, g[1], g[0], depth + 1) for r in ast.walk(g[1]) if isinstance(r, ast.Return) and r.value is not None)
+            init = ci.resolve('__init__')
+            if init is not None:
+                ann = {x.arg: (ast.unparse(x.annotation) if x.annotation is not None else '') for x in init[1].args.args + init[1].args.kwonlyargs}
+                for st in ast.walk(init[1]):
+                    if isinstance(st, ast.Assign) and any(self_attr(t) == a for t in st.targets):
+                        v = st.value
+                        if isinstance(v, ast.Name) and v.id in ann:
+                            if any(k in ann[v.id] for k in ('Tensor', 'Parameter')):
+                                return True
+                        elif may_be_tensor(v, init[1], init[0], depth + 1):
+                            return True
+        return False
+    if isinstance(e, ast.Name):
+        for x in fn.args.args + fn.args.kwonlyargs:
+            if x.arg == e.id:
+                return x.annotation is not None and any(k in ast.unparse(x.annotation) for k in ('Tensor', 'Parameter'))
+        for st in ast.walk(fn):
+            if isinstance(st, ast.Assign) and any(isinstance(t, ast.Name) and t.id == e.id for t in st.targets):
+                if may_be_tensor(st.value, fn, ci, depth + 1):
+                    return True
+        return False
+    if isinstance(e, ast.BinOp):
+        return may_be_tensor(e.left, fn, ci, depth + 1) or may_be_tensor(e.right, fn, ci, depth + 1)
+    if isinstance(e, ast.UnaryOp):
+        return may_be_tensor(e.operand, fn, ci, depth + 1)
+    if isinstance(e, ast.IfExp):
+        return may_be_tensor(e.body, fn, ci, depth + 1) or may_be_tensor(e.orelse, fn, ci, depth + 1)
+    if isinstance(e, ast.Subscript):
+        return may_be_tensor(e.value, fn, ci, depth + 1)
+    if isinstance(e, ast.Call):
+        dn = dotted_name(e.func) or ''
+        if dn.startswith('torch.') and not dn.startswith('torch.Size'):
+            return True
+        if isinstance(e.func, ast.Attribute) and e.func.attr in ('sum', 'log', 'exp', 'mean', 'expand', 'view', 'reshape', 'clone'):
+            return may_be_tensor(e.func.value, fn, ci, depth + 1)
+    return False
+
+
+def check_math_on_tensors(ctx, rep, targets_with_cls):
+    """C12.D — math.log / math.lgamma … of a tensor silently converts it to a Python float: the value tracks the parameter, the gradient through it is lost"""
+    n = 0
+    for m, qual, fn, ci in targets_with_cls:
+        for c in ast.walk(fn):
+            if isinstance(c, ast.Call) and isinstance(c.func, ast.Attribute) and isinstance(c.func.value, ast.Name) and c.func.value.id == 'math' and c.args:
+                n += 1
+                bad = [ast.unparse(a)[:40] for a in c.args if may_be_tensor(a, fn, ci)]
+                rep.check('C12.D', f"{qual}::math()::{norm_text(c)[:60]}", not bad, where(m, c), {'tensor_arguments': bad},
+                          f"{qual}: `{norm_text(c)[:60]}` applies a Python math function to {bad}, which can be a parameter's tensor: it is converted to a float, so the "
+                          f"returned value follows the parameter but the gradient with respect to it loses this term")
+    rep.analysed['math_calls'] = n
+
+
+def check_requires_grad_setters(ctx, rep):
+    """C12.G — switching requires_grad on after a first evaluation (what Optimizer does) must invalidate the caches that hold graph-less tensors"""
+    from props import c11
+    from sa.members import PARAM_BASE
+    n = 0
+    for cls in sorted(ctx.classes.subclasses(PARAM_BASE), key=lambda c: c.qualname):
+        if cls.is_abstract():
+            continue
+        r = cls.resolve('requires_grad', 'setter')
+        if r is None:
+            continue
+        defcls, fn = r
+        if not any(isinstance(x, ast.Assign) for x in ast.walk(fn)):
+            continue
+        n += 1
+        ok, facts = c11.notifies(cls, fn)
+        rep.check('C12.G', f"{cls.qualname}::requires_grad.setter-notifies", ok, where(defcls.module, fn), facts,
+                  f"{defcls.name}.requires_grad setter changes whether the tensor records a graph without notifying the listeners: derived parameters and models that were "
+                  f"evaluated before keep tensors without a graph, so the next backward() gives no gradient for this parameter (value right, gradient missing)")
+    if n < 3:
+        raise AnalysisError(f"only {n} requires_grad setters found")
+
+
+def check_where_traps(ctx, rep, scope_fns):
+    """C12.N — torch.where(D != 0, f(…/D…), g) evaluates both branches: where D == 0 the unselected quotient is 0/0 and its NaN gradient flows back through the mask"""
+    n = 0
+    for qual, m, fn in scope_fns:
+        defs = local_assignments(fn)
+        for c in ast.walk(fn):
+            if not (isinstance(c, ast.Call) and method_name(c) == 'where' and len(c.args) == 3):
+                continue
+            n += 1
+            g = c.args[0]
+            if isinstance(g, ast.Name) and g.id in defs and len(defs[g.id]) == 1:
+                g = defs[g.id][0]
+            tested = None
+            nonzero_branch = None
+            if isinstance(g, ast.Compare) and len(g.ops) == 1 and isinstance(g.comparators[0], ast.Constant) and isinstance(g.comparators[0].value, (int, float)):
+                left = g.left
+                if isinstance(left, ast.Call) and method_name(left) == 'abs':
+                    left = left.func.value if isinstance(left.func, ast.Attribute) and not (isinstance(left.func.value, ast.Name) and left.func.value.id == 'torch') else left.args[0]
+                zero = float(g.comparators[0].value) == 0.0
+                if isinstance(g.ops[0], (ast.NotEq, ast.Gt)) and (zero or isinstance(g.ops[0], ast.Gt)):
+                    tested, nonzero_branch = left, c.args[1]
+                elif isinstance(g.ops[0], (ast.Eq, ast.Lt, ast.LtE)) and (zero or not isinstance(g.ops[0], ast.Eq)):
+                    tested, nonzero_branch = left, c.args[2]
+            key = f"{qual.replace('torchtree.', '')}::{norm_text(c)[:50]}"
+            if tested is None:
+                rep.ok('C12.N', key, where(m, c), {'class': 'guard is not a zero test'})
+                continue
+            ttxt = ast.unparse(tested)
+            names = {ttxt}
+            divides = []
+            for e in backward_slice(nonzero_branch, defs):
+                for x in ast.walk(e):
+                    if isinstance(x, ast.BinOp) and isinstance(x.op, ast.Div) and ast.unparse(x.right) in names:
+                        divides.append(ast.unparse(x)[:60])
+                    if isinstance(x, ast.Call) and method_name(x) in ('log', 'reciprocal', 'rsqrt') and any(ast.unparse(a) in names for a in list(x.args) + ([x.func.value] if isinstance(x.func, ast.Attribute) else [])):
+                        divides.append(ast.unparse(x)[:60])
+            rep.check('C12.N', key, not divides, where(m, c), {'tested': ttxt, 'singular_in_selected_branch': divides},
+                      f"{qual}: `torch.where` selects `{divides[0] if divides else ''}` where `{ttxt}` is non-zero, but evaluates it everywhere: at the masked-out positions the "
+                      f"quotient is 0/0 and its NaN gradient reaches every input of that branch (value right, gradient NaN); use a masked assignment or a safe denominator")
+    rep.analysed['where_calls'] = n
+
+
 def run(ctx, rep):
     rep.explanation = (
         "Every method on a differentiable path (all methods of the model, distribution, transform and parameter classes outside construction / "
@@ -144,6 +277,8 @@ def run(ctx, rep):
         "reason (estimators defined with stop-gradients, torch.unique of tip dates) — anything else is a violation: the value returned no longer "
         "carries the derivative with respect to a parameter it depends on."
     )
+    rep.rule('C12.N', "no torch.where whose selected branch divides by (or takes the log of) the very quantity the guard tests for zero")
+    rep.rule('C12.G', "requires_grad setters notify listeners (caches evaluated before the switch hold graph-less tensors)")
     rep.rule('C12.D', "no graph-cutting construct on a differentiable path (shape-derived / literal / index-only / allow-listed uses excepted)")
     rep.assumptions += ["Tensor.detach/item/tolist/numpy/.data, torch.no_grad, torch.tensor(t), float(t)/int(t) and autograd.functional.jacobian/hessian "
                         "with create_graph=False cut the autograd graph"]
@@ -151,6 +286,7 @@ def run(ctx, rep):
     n_fn = 0
     n_c = 0
     targets = []
+    owner = {}
     for ci in sorted(ctx.classes.classes.values(), key=lambda c: c.qualname):
         if any(x in ci.qualname for x in SKIP_PACKAGES):
             continue
@@ -164,6 +300,7 @@ def run(ctx, rep):
                 if name in SKIP_METHODS:
                     continue
                 targets.append((ci.module, f"{ci.qualname}.{name}", fn))
+                owner[id(fn)] = ci
     for mname in KERNEL_MODULES:
         m = ctx.prog.module(mname)
         for name, fn in m.functions.items():
@@ -203,6 +340,9 @@ def run(ctx, rep):
             rep.bad('C12.D', key, W, {'construct': text[:100], 'kind': kind},
                     f"{qual}: `{text[:70]}` cuts the autograd graph on a differentiable path: parameters that influence the returned value through it "
                     f"receive a missing or zero gradient")
+    check_where_traps(ctx, rep, [(qual, m, fn) for m, qual, fn in targets])
+    check_math_on_tensors(ctx, rep, [(m, qual, fn, owner.get(id(fn))) for m, qual, fn in targets])
+    check_requires_grad_setters(ctx, rep)
     rep.analysed['functions_scanned'] = n_fn
     rep.analysed['constructs_classified'] = n_c
     if n_fn < 250 or n_c < 20:
